@@ -142,7 +142,7 @@ def census(tier='quick', seed=0):
 
 def conc_next(model, oname):
     from cylc.flow.task_action_timer import TaskActionTimer
-    for delays in ([], [5.0], [1.0, 2.0], [0.0, 3.0, 3.0]):
+    for delays in ([], [5.0], [1.0, 2.0], [0.0, 3.0, 3.0], [0.0], [60.0, 0.0]):
         for num in range(0, 5):
             for prev in (None, 7.0):
                 for ne in (False, True):
